@@ -5,6 +5,9 @@ document semantics (Model/C17Doc.lean, spec) and about mxlpy's own stage: argume
 functions, initial assignments, names of generated functions, name of the generated module.
 -/
 import MxlVerif.Lemmas.C17
+import MxlVerif.Lemmas.C17Codegen
+import MxlVerif.Lemmas.C17Names
+import MxlVerif.Lemmas.C17Rename
 namespace Mxl.C17
 open Mxl.C08
 
@@ -96,5 +99,190 @@ theorem C17_two_docs_independent (s1 s2 d1 d2 : String) (hlen : d1.length = d2.l
   simp only [String.toList_append] at h'
   have hl : d1.toList.length = d2.toList.length := by rw [String.length_toList, String.length_toList, hlen]
   exact String.ext (List.append_inj_right' h' hl)
+
+/-! ### the naming / glue stage of `generate_mxlpy_code_from_symbolic_repr` and `_codegen` (Model/C17Codegen.lean) -/
+
+/-- `_free_name` terminates: `len(taken) + 1` rounds always suffice (every round meets another element of
+    `taken`), and the name it returns is not taken. -/
+theorem C17_free_name_terminates (taken : List String) (name : String) :
+    freeName taken name (taken.length + 1) = some (freshName taken name) ∧ freshName taken name ∉ taken :=
+  ⟨freshName_spec taken name, freshName_not_taken taken name⟩
+
+/-- **Every reference resolves to the definition its component registered.**  Whenever the function names of
+    the derived quantities and reactions are pairwise distinct (on the import path they are the keys of the
+    document's rules and reactions), executing the emitted module — looking every `fn=<name>` up among the
+    module's definitions — builds exactly the calls the representation prescribes: same order, same keys, same
+    keyword, and for every initial assignment / derived quantity / reaction / computed stoichiometry the
+    (expression, parameter list) of *that* component, called with the same list. -/
+theorem C17_codegen_refs_resolve (s : SymRepr) (hnd : (takenOf s).Nodup) (m : Module) (h : genModule s = .ok m) :
+    resolveModule m = specCalls s := by
+  simp only [genModule, genModuleWith] at h
+  split at h
+  · cases h
+  · simp only [Except.ok.injEq] at h
+    subst h
+    exact (genState_spec s hnd).2.2
+
+/-- **No overwrite happens**: the emitted function names are pairwise distinct, and there is one definition per
+    function the representation asks for (initial assignments, derived quantities, reactions, computed
+    stoichiometries); every definition has pairwise distinct parameters (else the generator raises). -/
+theorem C17_codegen_function_names_distinct (s : SymRepr) (hnd : (takenOf s).Nodup) (m : Module)
+    (h : genModule s = .ok m) :
+    (m.functions.map (·.1)).Nodup ∧ m.functions.length = fnsAsked s ∧ ∀ kv ∈ m.functions, hasDup kv.2.2 = false := by
+  simp only [genModule, genModuleWith] at h
+  split at h
+  · cases h
+  · rename_i hdup
+    simp only [Except.ok.injEq] at h
+    subst h
+    refine ⟨(genState_spec s hnd).1, (genState_spec s hnd).2.1, ?_⟩
+    intro kv hkv
+    simp only [List.any_eq_true, not_exists, not_and, Bool.not_eq_true] at hdup
+    exact hdup kv hkv
+
+/-- the witness of F-C17-9: before the repair (names handed out were not added to `taken`) parameters `a` and
+    `a_` with initial assignments next to a derived quantity called `init_a` both got `init_a_`; `a` was then
+    initialised with the formula of `a_`.  With the repair the same input resolves as prescribed. -/
+def wCollide : SymRepr :=
+  { variables := []
+    parameters := [("a", { value := .fn { fnName := "a", expr := 1, args := ["q"] }, unit := false }),
+                   ("a_", { value := .fn { fnName := "a_", expr := 2, args := ["q"] }, unit := false })]
+    derived := [("init_a", { fnName := "init_a", expr := 3, args := ["q"] })]
+    reactions := [] }
+
+theorem C17_generated_names_collided_before_repair :
+    (genModuleWith false wCollide).toOption.map resolveModule ≠ some (specCalls wCollide) ∧
+    (genModuleWith false wCollide).toOption.map (·.functions.map (·.1)) = some ["init_a_", "init_a"] ∧
+    (genModule wCollide).toOption.map (·.functions.map (·.1)) = some ["init_a_", "init_a__", "init_a"] := by
+  decide +kernel
+
+/-- non-vacuity: the witness has pairwise distinct component function names and is accepted -/
+example : (takenOf wCollide).Nodup ∧ (genModule wCollide).toBool = true := by decide +kernel
+
+/-- `_codegen`: the function of a derived quantity / reaction is called like its key, so the hypothesis of the two
+    theorems above is "the keys of pysbml's `derived` and `reactions` are pairwise distinct". -/
+theorem C17_import_refs_resolve (pm : PModel) (hnd : (pm.derived.map (·.1) ++ pm.reactions.map (·.1)).Nodup)
+    (m : Module) (h : genModule (importSym pm) = .ok m) :
+    resolveModule m = specCalls (importSym pm) ∧ (m.functions.map (·.1)).Nodup :=
+  have hnd' : (takenOf (importSym pm)).Nodup := by rw [takenOf_importSym]; exact hnd
+  ⟨C17_codegen_refs_resolve _ hnd' m h, (C17_codegen_function_names_distinct _ hnd' m h).1⟩
+
+/-- `_codegen`: an initial assignment on a parameter replaces that parameter's value by the assignment's
+    function (named after the key, parameters = its free symbols); on a variable that is no parameter likewise;
+    keys, order and units are untouched. -/
+theorem C17_import_ia_overrides_value (pm : PModel) (key : String) (e : PExpr) (hnd : (pm.inits.map (·.1)).Nodup)
+    (hmem : (key, e) ∈ pm.inits) :
+    (hasKey pm.parameters key = true →
+      (importSym pm).parameters.lookup key =
+        (pm.parameters.lookup key).map fun vu => { value := .fn { fnName := key, expr := e.expr, args := e.free }, unit := vu.2 }) ∧
+    (hasKey pm.parameters key = false → hasKey pm.variables key = true →
+      (importSym pm).variables.lookup key =
+        (pm.variables.lookup key).map fun vu => { value := .fn { fnName := key, expr := e.expr, args := e.free }, unit := vu.2 }) ∧
+    (importSym pm).parameters.map (·.1) = pm.parameters.map (·.1) ∧
+    (importSym pm).variables.map (·.1) = pm.variables.map (·.1) := by
+  have lk : ∀ (l : List (String × ExprId × Bool)),
+      (l.map fun kv => (kv.1, ({ value := .num kv.2.1, unit := kv.2.2 } : SymQty))).lookup key =
+        (l.lookup key).map fun vu => ({ value := .num vu.1, unit := vu.2 } : SymQty) := by
+    intro l
+    induction l with
+    | nil => rfl
+    | cons kv rest ih =>
+      simp only [List.map_cons, List.lookup]
+      split <;> simp_all
+  refine ⟨?_, ?_, ?_, ?_⟩
+  · intro hp
+    unfold importSym
+    rw [applyInits_parameter pm key e hp pm.inits _ hnd hmem]
+    simp only [lk]
+    cases pm.parameters.lookup key <;> rfl
+  · intro hp hv
+    unfold importSym
+    rw [applyInits_variable pm key e hp hv pm.inits _ hnd hmem]
+    simp only [lk]
+    cases pm.variables.lookup key <;> rfl
+  · unfold importSym
+    rw [(applyInits_keys pm pm.inits _).1]
+    simp [List.map_map]
+  · unfold importSym
+    rw [(applyInits_keys pm pm.inits _).2.1]
+    simp [List.map_map]
+
+/-- `_codegen`: an initial assignment whose key is neither a parameter nor a variable of the pysbml model is
+    dropped without a message (reachable: pysbml keeps the assignment of a species in a non-constant compartment
+    under the species' id, which it turns into a derived quantity, next to the one it adds for `<id>_amount`). -/
+theorem C17_import_ia_elsewhere_dropped (pm : PModel) (key : String) (e : PExpr) (rest : List (String × PExpr))
+    (s : SymRepr) (hp : hasKey pm.parameters key = false) (hv : hasKey pm.variables key = false) :
+    applyInits pm ((key, e) :: rest) s = applyInits pm rest s := by
+  simp [applyInits, hp, hv]
+
+/-! ### the identifier mapping (pysbml `name_to_py`, modelled as `Mxl.C08.nameToPy`) -/
+
+/-- The hand-written model agrees with what `translate/c17.py` reads from the source on every run: the keyword
+    list of the interpreter, SBML_DOT, the `.replace` chain (its first entry turns SBML_DOT into "." which a later
+    entry deletes; all other entries have one-character patterns and, applied in order to any character, give
+    `replaceChar`), the escape pattern, the suffix for keywords, the prefix for a non-alphabetic first character,
+    the order of the steps; and the unused copy inside mxlpy is the same but for the empty-name guard. -/
+theorem C17_names_tables_agree :
+    pyKeywords = Gen.kwlist ∧ String.ofList sbmlDot = Gen.sbmlDot ∧
+    Gen.replaceChain.head? = some (Gen.sbmlDot, ".") ∧ replaceChar '.' = [] ∧
+    (∀ c, chainOnChar Gen.replaceChain.tail c = replaceChar c) ∧
+    Gen.escapeRegex = "__(\\d+)__" ∧ Gen.escapeIsChr = true ∧ Gen.keywordSuffix = "_" ∧ Gen.leadingPrefix = "_" ∧
+    Gen.stepOrder = ["unescape", "keywords", "replace", "empty", "leading"] ∧
+    Gen.mxlpyCopyChain = Gen.replaceChain ∧ Gen.mxlpyCopySbmlDot = Gen.sbmlDot ∧
+    Gen.mxlpyCopyEscapeRegex = Gen.escapeRegex ∧ Gen.mxlpyCopyKeywordSuffix = Gen.keywordSuffix ∧
+    Gen.mxlpyCopyLeadingPrefix = Gen.leadingPrefix ∧
+    Gen.mxlpyCopyStepOrder = ["unescape", "keywords", "replace", "leading"] :=
+  ⟨by decide +kernel, by decide +kernel, by decide +kernel, by decide +kernel, chain_agrees, by decide +kernel, rfl,
+   by decide +kernel, by decide +kernel, by decide +kernel, by decide +kernel, by decide +kernel, by decide +kernel,
+   by decide +kernel, by decide +kernel, by decide +kernel⟩
+
+/-- identifiers `[A-Za-z][A-Za-z0-9_]*` without `__` that are not keywords are left as they are -/
+theorem C17_name_identity_on_plain (s : String) (h : isRoundTripName s = true) : nameToPy s = s :=
+  nameToPy_plain s h
+
+/-- On a legal SBML identifier without `__` (not of the form `<keyword>_`) the mapping does one of three things:
+    a keyword gets an underscore appended, an identifier that starts with a letter stays, one that starts with `_`
+    gets another `_` in front.  In every case the result starts with a letter or `_`: a usable Python name. -/
+theorem C17_name_mapping_shape (s : String) (h : inNameDomain s = true) :
+    (s ∈ pyKeywords ∧ (nameToPy s).toList = s.toList ++ ['_'] ∧ ∃ c cs, s.toList = c :: cs ∧ isAsciiAlpha c = true) ∨
+    (s ∉ pyKeywords ∧ nameToPy s = s ∧ ∃ c cs, s.toList = c :: cs ∧ isAsciiAlpha c = true) ∨
+    (s ∉ pyKeywords ∧ (nameToPy s).toList = '_' :: s.toList ∧ ∃ cs, s.toList = '_' :: cs) :=
+  nameToPy_shape s h
+
+/-- **Distinct identifiers stay distinct** on legal SBML identifiers that contain no `__` and are not a keyword
+    followed by an underscore … -/
+theorem C17_name_mapping_injective (s t : String) (hs : inNameDomain s = true) (ht : inNameDomain t = true)
+    (h : nameToPy s = nameToPy t) : s = t :=
+  nameToPy_injective s t hs ht h
+
+/-- … and not on all legal identifiers (finding F-C17-10, third party): `if` / `if_`, `a__46__b` / `ab`. -/
+theorem C17_name_mapping_not_injective :
+    nameToPy "if" = nameToPy "if_" ∧ "if" ≠ "if_" ∧ isSId "if" = true ∧ isSId "if_" = true ∧
+    nameToPy "a__46__b" = nameToPy "ab" ∧ "a__46__b" ≠ "ab" ∧ isSId "a__46__b" = true ∧ isSId "ab" = true := by
+  decide +kernel
+
+/-- non-vacuity: ordinary identifiers, keywords and underscore-led identifiers are in the domain -/
+example : inNameDomain "glc_c" = true ∧ inNameDomain "lambda" = true ∧ inNameDomain "_p" = true ∧
+    inNameDomain "if_" = false ∧ inNameDomain "X__1" = false := by decide +kernel
+
+/-- **References still resolve after renaming**, at the level of one expression: a MathML tree whose identifiers
+    are renamed by `f`, read in an environment that gives every renamed identifier the value the original one had,
+    has the value of the original tree.  (Together with injectivity of `f` on the document's identifiers such an
+    environment exists; the document-level statement for `SDoc.mapNames` is exercised by the tie, not proved.) -/
+theorem C17_rename_expression_consistent (I : Interp) (f : String → String) (e1 e2 : VEnv) (m : MathML)
+    (h : ∀ n ∈ mathNames m, e2 (f n) = e1 n) : evalMath I e2 (mapMath f m) = evalMath I e1 m :=
+  evalMath_rename I f e1 e2 m h
+
+/-- **References still resolve after renaming**, at the level of the document: if `f` is injective on the
+    identifiers a flat document defines or mentions (`DocIn d D`, `InjOn f D` — for pysbml's mapping: D =
+    `inNameDomain`, by `C17_name_mapping_injective`), then the renamed document (`SDoc.mapNames f`: every key and
+    every `ci` passed through `f`) gives the renamed identifier the initial value the original document gives the
+    original one.  Lookups by key, last-wins lookups, reaction lookups and the math all commute with `f`.
+    (The same statement for `docValue` / `docRhs` is not proved: species-reference ids are not renamed by
+    pysbml — finding F-C17-5 — and the tie covers them.) -/
+theorem C17_rename_docInit_consistent (I : Interp) (f : String → String) (D : String → Prop) (hinj : InjOn f D)
+    (d : SDoc) (hd : DocIn d D) (fuel : Nat) (n : String) (hn : D n) :
+    docInit I (d.mapNames f) fuel (f n) = docInit I d fuel n ∧ (d.mapNames f).fuel = d.fuel :=
+  ⟨docInit_rename I f hinj d hd fuel n hn, fuel_mapNames f d⟩
 
 end Mxl.C17
